@@ -134,6 +134,31 @@ def run(ctx):
             if r == "accepted-valid":
                 ctx.note("fixed_text_accepted_by_reference", t)
                 ctx.count("harness/fixed-invalid-text-accepted-by-reference")
+    # junk far behind a complete definition (tens of thousands to a million characters of white space or comments later): the
+    # whole text is the unit of compilation, however long it is
+    if ctx.shard in (0, 1):
+        good = 'def far { splitters: u return "a" weighted 1, "b" weighted 1 }'
+        for pi, pad in enumerate([" " * 70000, "\n" * 70000, "// filler line\n" * 5000, "/* block */ " * 6000, " " * 300000,
+                                  "\t\n" * 600000 if not ctx.quick() else " " * 131072]):
+            if pi % 2 != ctx.shard:
+                continue
+            for junk in ("@", "}", 'def second { return "z" weighted 1 }', "junk", "/* open", '"open', "0"):
+                small = good + " " + junk
+                if ref_parse(small)[0] != "reject":
+                    ctx.count("harness/far-junk-not-rejected-by-reference")
+                    continue
+                text = good + pad + junk
+                c = im.construct(text)
+                ctx.evaluated()
+                ctx.nontrivial("far-junk", pi, junk)
+                if c[0] == "ok":
+                    ctx.violation("invalid-text-accepted", dict(text_head=good, padding=repr(pad[:12]) + f" x {len(pad)} chars", junk=junk, layer="far-junk"),
+                                  mechanism="C06/trailing-text-ignored")
+                else:
+                    ctx.count("far-junk/rejected")
+        ctx.evaluated()
+        if im.construct(good + " " * 200000)[0] != "ok":
+            ctx.violation("valid-text-rejected", dict(text_head=good, padding="200000 blanks", layer="far-junk"), mechanism="C06/valid-long-text-rejected")
     seeds = list(corpus.SEEDS) + list(corpus.DOCUMENTED.values())
     for s in seeds:
         slices = token_slices(s)
